@@ -76,7 +76,13 @@ ANCHORS = [
     "gemseo.core.mdo_functions.consistency_constraint:ConsistencyConstraint._jac_to_wrap",
 ]
 MIN_COUNTERS = {
-    "quick": {},
+    "quick": {"value_oracle_evaluations": 4200, "value_MDF": 1250, "value_IDF": 2500, "value_DisciplinaryOpt": 400,
+              "derivative_oracle_evaluations": 4200, "derivative_MDF": 1250, "derivative_IDF": 2500,
+              "derivative_DisciplinaryOpt": 400, "consistency_oracle_evaluations": 1200,
+              "consistency_jacobian_vs_value_checked": 850, "off_equilibrium_oracle_evaluations": 800,
+              "space_oracle_evaluations": 650, "mask_roundtrip_checked": 650, "idf_missing_coupling_refused": 180,
+              "mdf_idf_points_compared": 600, "mdf_disciplinaryopt_points_compared": 190,
+              "optimum_oracle_evaluations": 75, "optimum_MDF": 24, "optimum_IDF": 45, "optimum_DisciplinaryOpt": 4},
     "thorough": {},
 }
 SHARD_TIMEOUT = {"quick": 400, "thorough": 2400}
@@ -92,8 +98,8 @@ INNER = ["MDAJacobi", "MDAGaussSeidel", "MDANewtonRaphson"]
 
 def shards(tier, seed):
     n = 16
-    per = {"quick": 14, "thorough": 420}[tier]
-    opt = {"quick": 2, "thorough": 30}[tier]
+    per = {"quick": 24, "thorough": 420}[tier]
+    opt = {"quick": 3, "thorough": 30}[tier]
     return [{"seed": subseed(seed, PID, i), "n_cases": per, "n_opt": opt,
              "budget_s": {"quick": 200, "thorough": 1500}[tier]} for i in range(n)]
 
@@ -503,6 +509,7 @@ def run_pointwise_case(case, rep):
     influencing = grouping.influences(ctx.design, set(fnames))
     uninfluential = [v for v in ctx.design if v not in influencing]
     coupling_free = not grouping.functions_depend_on_a_coupling(set(fnames))
+    shared_strong = grouping.strong_coupling_read_by_another_strong_group()
 
     # ---------------------------------------------------------------- construction
     forms = {}
@@ -672,6 +679,8 @@ def run_pointwise_case(case, rep):
                         sig = "C17:MDF:jac:ValueError:design-variable-influences-no-function"
                     elif fam == "MDF" and isinstance(e, IndexError) and ctx.couplings and coupling_free:
                         sig = "C17:MDF:jac:IndexError:no-function-depends-on-a-coupling"
+                    elif fam == "MDF" and shared_strong and isinstance(e, (ValueError, KeyError, IndexError)):
+                        sig = f"C17:MDF:jac:strong-coupling-read-by-another-strong-group:{type(e).__name__}"
                     else:
                         sig = f"C17:{fam}:jac:exception:{type(e).__name__}:{feat}"
                     rep.violation(sig, "derivative", case, observed=_exc(e),
@@ -710,8 +719,11 @@ def run_pointwise_case(case, rep):
                 else:
                     total = J[:, dcols]
                     what = "total-derivative-differs-from-closed-form"
+                    if fam == "MDF" and shared_strong:
+                        what = "jac:strong-coupling-read-by-another-strong-group:wrong-value"
                 if float(np.max(np.abs(total - ref_J), initial=0.0)) > JAC_TOL * jscale:
-                    rep.violation(f"C17:{fam}:{what}:{role}:{feat}", "derivative", case,
+                    sig = f"C17:{fam}:{what}" if what.endswith("wrong-value") else f"C17:{fam}:{what}:{role}:{feat}"
+                    rep.violation(sig, "derivative", case,
                                   observed={"point": pt["kind"], "function": f["names"], "d/dx": total},
                                   expected={"d/dx": ref_J, "design_variables": ctx.design})
                 if "w" in names and float(np.max(np.abs(J[:, sl["w"]]), initial=0.0)) != 0.0:
@@ -798,6 +810,8 @@ def run_pointwise_case(case, rep):
         rep.count("cases_with_a_design_variable_influencing_no_function")
     if coupling_free and ctx.couplings:
         rep.count("cases_where_no_function_depends_on_a_coupling")
+    if shared_strong:
+        rep.count("cases_with_a_strong_coupling_read_by_another_strong_group")
 
 
 def _mda_converged(form):
